@@ -29,6 +29,8 @@ func init() {
 			"(conditions-consult-expiry) for each presence-dependent mode (NX, XX, ttl-only update) every path of checkPutConditions from the mode's true edge to a success return evaluates isKeyExpired on the stored ttl, and checkPutConditions dominates every insert of putOnCluster; " +
 			"(ttl-exhaustive) prepareTTL has one case per ttl option of PutConfig plus the default-ttl branch, each dividing nanoseconds by 1e6, and Incr/Decr re-arm the remaining ttl; " +
 			"(unit-agreement) every encoder and decoder of EX/PX/EXAT/PXAT, Expire/PExpire, LockLease/PLockLease, Lock EX/PX and the lock deadline agree on seconds vs milliseconds; " +
+			"(explicit-expiry-wins) prepareTTL derives the deadline from env.timeout (the DMap's default TTL, or the remaining time carried by Incr/Decr) only on the false edges of HasEX, HasPX, HasEXAT and HasPXAT; " +
+			"(sanitize-keeps-every-copy, shared with C06) the version list of a quorum read loses only the holders without a copy before the newest-first comparison, never an expired version; " +
 			"(timeout-needs-ttl-mode) a request's default-timeout field is only set together with the ttl-only mode, the only mode whose forwarding transmits it (shared with C08/C15); " +
 			"(lookup-visits-every-table) shared with C11: ttl updates reach keys in every storage table.",
 		Run: func(r *core.Run) {
@@ -40,6 +42,8 @@ func init() {
 			timeoutNeedsTTLMode(r)
 			kvLookupVisitsEveryTable(r)
 			kvLookupCoversAllTables(r)
+			c09ExplicitExpiryWins(r)
+			c09SanitizeKeepsVersions(r)
 		},
 	})
 }
